@@ -21,9 +21,9 @@ for i in range(1, 21):
 
 ROWS = {
  "C01": ("EndToEnd.newHash_then_check_⟨S⟩ (∀ request: the string NewHash returns verifies; Key opaque), newHash_ok/total_⟨S⟩, newHash_empty_iff_md5/des, generated_salt_accepted, KDF totality (KdfProps.*_total_gen), C07.builtins_registered",
-         "T: constants, shapes, guards, registrations · H: scheme pipeline, KDFs",
+         "T: constants, shapes, guards, registrations, and the scheme pipeline itself (FlowModel: the regenerated flow IR evaluates to Scheme.check/params/newHash) · H: KDF bodies, codec",
          "scheme (NewHash→Check→crypt.Check byte-for-byte under scripted entropy; BSDi integer coding; cost at the exported bound; unicode / ill-formed UTF-8 passwords for NT hash)",
-         "scheme-level model tied by correspondence"),
+         "KDF bodies and codec tied by correspondence"),
  "C02": ("C02.check_ok_iff (nil ⇔ Key's result re-encodes to the stored digest), error-return theorems, tampered_digest_never_ok; for EVERY scheme the documented password equivalence as a predicate, 'equivalent ⇒ same verdict' and 'both verify ⇒ equivalent ∨ a named collision of the primitive' (KdfProps.*_absorbs, C02b.des/desext/bcrypt/nthash/argon2_check_absorbs); desext_twin_checks, bcryptEquiv_coarser (the algorithm's equivalence is coarser than the wording: F16, F17)",
          "T+H", "scheme (near-miss passwords under each scheme's equivalence, every digest-symbol substitution, the proved inherent equivalences replayed)", "the non-collision of the primitives is an explicit disjunct (a hypothesis, never an axiom)"),
  "C03": ("model = reference written from the published algorithm, ∀ inputs (and ∀ hash function where generic): md5crypt_eq_spec, sha2crypt_eq_spec, C03b.sha1crypt_eq_spec, sunmd5_eq_spec(_wrap), nthash_eq_spec, bcrypt_eq_spec (+ bcrypt_long_password_deviation: the documented pre-2b ≥254-byte rule), descrypt/desext_layer_eq_spec, and C03b.encrypt_eq_fips: the table-driven DES (tables regenerated from const.go) = FIPS 46-3 DES with the crypt(3) salt swap for every 64-bit key and block",
@@ -36,7 +36,7 @@ ROWS = {
  "C05": ("totality of every model function (structural/fuel recursion), parser never stores nil and never returns an empty group, KDF totality, alphabet indices < 64, C16Decode.decode_never_panics",
          "T+H", "kdf + classify + parse + dispatch + b64 + stream + codec (outcome class incl. panic/timeout under recover + watchdog; bytes ≥ 0x80; lanes ≥ 64; a process-killing crash is reported with the pending operation)", "Go-side panics inside reflect/stdlib for inputs the model accepts are only sampled"),
  "C06": ("Accept.unmarshal_eq_grammar_⟨S⟩ (Unmarshal accepts h with fields out ⇔ the independent recogniser Spec/Grammar.lean accepts h and reads those fields — all ten layouts, all strings), mismatch_only_when_wellformed, params_iff_unmarshal, C10.canonical_⟨S⟩, C14.guards_iff_accepts_⟨S⟩",
-         "T: shapes, guards · H: codec, pipeline",
+         "T: shapes, guards, pipeline (FlowModel) · H: codec",
          "classify (every edit at distance 1, splices, wrap-around numbers, duplicated group members, last-symbol sweep, explicit versions, short strings); a class disagreement is a concrete misclassified string",
          "arbitrary struct types are C10/C20's; F9"),
  "C07": ("dispatcher refines a last-writer-wins map (check_refines_registry), prefix rule = lexer's prefix (prefixOf_none_iff_parse_error), builtins_registered / registrations_only_in_init over regenerated facts",
@@ -53,7 +53,7 @@ ROWS = {
  "C11": ("parse_lossless, parse_eq_ref (= split-based reference on every input), spans_exact, values_no_delim, groups_surface_once, parse_error_iff, lexer terminal token last, lexer_goroutine_facts (regenerated)",
          "H + T: goroutine-structure facts", "parse (all strings ≤ 7 over the delimiter alphabet + random; token streams via hook; goroutine count)", "channel runtime; goroutine exit observed"),
  "C12": ("EndToEnd.newHash_canonical_⟨S⟩ (∀ request: output accepted by the independent recogniser with documented prefix, requested cost in canonical form, default-length salt over the alphabet, fixed-length digest = Key's result re-encoded), params_of_newHash_⟨S⟩, defaults_agree (Params and Check apply the same defaults: regenerated flow IR)",
-         "T: flow IR, shapes, constants · H: pipeline",
+         "T: flow IR (evaluates to the pipeline model: FlowModel), shapes, constants · H: codec, KDF bodies",
          "scheme (independent regular expression, byte identity with model, BSDi integer coding, the exported cost bound, Check ⇔ Key(Params) on non-canonical spellings)", "model↔Go differential"),
  "C13": ("argSafe_/resultFresh_⟨S⟩ decided by the kernel on the regenerated slice-effect IR (stores through pointers included); C13Sound.argSafe_sound / resultFresh_sound / results_disjoint_across_calls (semantics: Spec/SliceSem.lean), argSafe_complete, pointsTo_exact",
          "T: the IR itself", "purity (sentinel buffers, option structs incl. rejected/defaulted values, repeated/interleaved calls, mutated results)", "gogen's slice-effect translator and its library-call table"),
